@@ -33,8 +33,8 @@ def teardown_world():
     common.reset_world()
 
 
-def build_dut(script, sched):
-    b = build(script, perm_seed=sched.get('perm_seed'), noise=sched.get('noise', 0))
+def build_dut(script, sched, stage=None):
+    b = build(script, perm_seed=sched.get('perm_seed'), noise=sched.get('noise', 0), stage=stage)
     common.iter_seam.install(sched.get('iter_policy'), sched.get('iter_seed', 0))
     return b
 
